@@ -44,7 +44,7 @@ type cfg struct {
 	Depth      int
 	Concurrent bool // each received message processed in its own thread; copies injected back-to-back
 	Preempt    int
-	MaxAge     int        // >=0 with HasMaxAge: the handler's reply carries a Max-Age option of that many seconds (the cache lifetime is 247 s regardless)
+	MaxAge     int // >=0 with HasMaxAge: the handler's reply carries a Max-Age option of that many seconds (the cache lifetime is 247 s regardless)
 	HasMaxAge  bool
 	Code       codes.Code // request method of m1 and m2 (0 = GET); RFC 8132 adds FETCH 0.05, PATCH 0.06, iPATCH 0.07
 	DTLS       bool       // the connection runs over the real dtls/server.Session (read loop, datagram stream) instead of the in-memory session
@@ -298,6 +298,10 @@ func main() {
 		scs = append(scs, blockScenario(codes.GET, con, ev.Pick(r, 5, 7)))
 	}
 	scs = append(scs, blockScenario(codes.POST, true, ev.Pick(r, 5, 6)))
+	scs = append(scs, manyScenario(ev.Pick(r, 1100, 2200), true))
+	if r.Thorough() {
+		scs = append(scs, manyScenario(4200, false))
+	}
 	// every request method: GET..DELETE and the RFC 8132 methods FETCH, PATCH, iPATCH (reduced family per method)
 	for _, code := range []codes.Code{codes.POST, codes.PUT, codes.DELETE, codes.Code(5), codes.Code(6), codes.Code(7)} {
 		for _, t1 := range types {
